@@ -78,6 +78,168 @@ Proof.
     + apply plan_edges_In in H2. destruct H2 as [i [nd' [_ [Hd' _]]]]. lia.
 Qed.
 
+(** * Part B: out-edges in the transformed plan, for any registry order *)
+
+(** inversion of one step for an edge whose source is an old node that this step does not register *)
+Lemma avs_out_old p c e x :
+  sctx p c e -> In x (pedges (add_value_store p c e)) -> esrc x < c -> esrc x <> enode e ->
+  In x (pedges p) \/
+  (estale e = true /\ esource e = true /\ x = mke (esrc x) (write_id c) KDep /\
+   exists k, In (mke (esrc x) (enode e) k) (pedges p)).
+Proof.
+  intros Hs Hx Hlt Hne. apply (add_value_store_edges p c e x Hs) in Hx.
+  destruct Hx as [x Hx Hsrc | | Hst Hso | Hst Hso | Hst | pr Hst Hso Hpr | s k Hin Hk | s Hst Hin];
+    cbn [esrc edst ekind mke] in *; unfold lit_id, read_id, write_id in *; try lia.
+  - now left.
+  - right. split; [assumption|]. split; [assumption|]. split; [reflexivity|]. now apply pedge_iff.
+Qed.
+
+(** (O1) the out-edges of an old node that is not registered: its original out-edges, plus one
+    Dependency edge to the Barrier of every stale source it precedes *)
+Lemma add_all_out_unregistered x : forall es p c,
+  tctx p c es -> In x (pedges (add_all p c es)) -> esrc x < c -> ~ In (esrc x) (map enode es) ->
+  In x (pedges p) \/
+  exists e' c', In (e', c') (entry_ids c es) /\ estale e' = true /\ esource e' = true /\
+                x = mke (esrc x) (write_id c') KDep /\ exists k, In (mke (esrc x) (enode e') k) (pedges p).
+Proof.
+  induction es as [|e0 es IH]; intros p c Ht Hx Hlt Hno; cbn [add_all entry_ids] in *; [now left|].
+  pose proof (tctx_head _ _ _ _ Ht) as Hs. pose proof (tctx_step _ _ _ _ Ht) as Ht'.
+  pose proof (next_id_ge c e0) as Hge.
+  assert (Hne : esrc x <> enode e0) by (intros H; apply Hno; cbn; now left).
+  assert (Hno' : ~ In (esrc x) (map enode es)) by (intros H; apply Hno; cbn; now right).
+  destruct (IH _ _ Ht' Hx ltac:(lia) Hno') as [Hx' | [e' [c' [Hin [Hst [Hso [Heq [k Hk]]]]]]]].
+  - destruct (avs_out_old p c e0 x Hs Hx' Hlt Hne) as [H | [Hst [Hso [Heq Hk]]]]; [now left|].
+    right. exists e0, c. split; [now left | auto].
+  - right. exists e', c'. split; [now right|]. split; [assumption|]. split; [assumption|].
+    split; [assumption|]. exists k.
+    assert (He' : enode e' < c).
+    { apply (tctx_reg_lt p c (e0 :: es) _ Ht). cbn. right. now apply (entry_reg _ _ _ _ Hin). }
+    destruct (avs_out_old p c e0 _ Hs Hk) as [H | [_ [_ [Heq' _]]]]; cbn [esrc mke]; try assumption.
+    apply mke_eq in Heq'. destruct Heq' as [_ [Heq' _]]. unfold write_id in Heq'. lia.
+Qed.
+
+(** (O2) the only out-edge of a registered node is the value argument of its write call *)
+Lemma add_all_out_registered x : forall es p c e ce,
+  tctx p c es -> In (e, ce) (entry_ids c es) ->
+  (forall k, ~ In (mke (enode e) (enode e) k) (pedges p)) ->
+  In x (pedges (add_all p c es)) -> esrc x = enode e ->
+  x = mke (enode e) (write_id ce) (KPos 1) /\ estale e = true /\ esource e = false.
+Proof.
+  induction es as [|e0 es IH]; intros p c e ce Ht Hin Hloop Hx Hsrc; cbn [add_all entry_ids] in *;
+    [contradiction|].
+  pose proof (tctx_head _ _ _ _ Ht) as Hs. pose proof (tctx_step _ _ _ _ Ht) as Ht'.
+  pose proof (next_id_ge c e0) as Hge.
+  assert (Hec : enode e < c).
+  { apply (tctx_reg_lt p c (e0 :: es) _ Ht). now apply (entry_reg c (e0 :: es) e ce). }
+  destruct Hin as [Heq | Hin].
+  - inversion Heq; subst e0 ce.
+    assert (Hno : ~ In (esrc x) (map enode es)) by (rewrite Hsrc; now apply (tctx_head_notin _ _ _ _ Ht)).
+    assert (Hstep : forall y, In y (pedges (add_value_store p c e)) -> esrc y = enode e ->
+                    y = mke (enode e) (write_id c) (KPos 1) /\ estale e = true /\ esource e = false).
+    { intros y Hy Hys. apply (add_value_store_edges p c e y Hs) in Hy.
+      destruct Hy as [y Hy Hsrc' | | Hst Hso | Hst Hso | Hst | pr Hst Hso Hpr | s k Hin Hk | s Hst Hin];
+        cbn [esrc edst ekind mke] in *; unfold lit_id, read_id, write_id in *; try lia.
+      - auto.
+      - subst pr. apply pedge_iff in Hpr. destruct Hpr as [k Hk]. now apply Hloop in Hk. }
+    destruct (add_all_out_unregistered x es _ _ Ht' Hx ltac:(lia) Hno)
+      as [Hx' | [e' [c' [Hin' [_ [_ [_ [k Hk]]]]]]]].
+    + now apply Hstep.
+    + exfalso. rewrite Hsrc in Hk. destruct (Hstep _ Hk eq_refl) as [Heq' _].
+      apply mke_eq in Heq'. destruct Heq' as [_ [Heq' _]].
+      assert (enode e' < next_id c e).
+      { apply (tctx_reg_lt _ _ es _ Ht'). now apply (entry_reg _ _ _ _ Hin'). }
+      assert (He' : enode e' < c).
+      { apply (tctx_reg_lt p c (e :: es) _ Ht). cbn. right. now apply (entry_reg _ _ _ _ Hin'). }
+      unfold write_id in Heq'. lia.
+  - apply (IH _ _ e ce Ht' Hin); try assumption.
+    intros k Hk. apply (add_value_store_edges p c e0 _ Hs) in Hk. apply avs_edge_new_high in Hk.
+    cbn [esrc edst mke] in Hk. destruct Hk as [Hk | [Hk | Hk]]; [now apply Hloop in Hk | lia | lia].
+Qed.
+
+(** (O4) the out-edges of a read node: the argument edges of its registered node, plus one Dependency edge
+    to the Barrier of every stale source that takes the registered node as an ARGUMENT *)
+Lemma add_all_out_read x : forall es p c e ce,
+  tctx p c es -> In (e, ce) (entry_ids c es) ->
+  In x (pedges (add_all p c es)) -> esrc x = read_id ce ->
+  (ekind x <> KDep /\ In (mke (enode e) (edst x) (ekind x)) (pedges p)) \/
+  exists e' c', In (e', c') (entry_ids c es) /\ estale e' = true /\ esource e' = true /\
+                x = mke (read_id ce) (write_id c') KDep /\
+                exists k, k <> KDep /\ In (mke (enode e) (enode e') k) (pedges p).
+Proof.
+  induction es as [|e0 es IH]; intros p c e ce Ht Hin Hx Hsrc; cbn [add_all entry_ids] in *;
+    [contradiction|].
+  pose proof (tctx_head _ _ _ _ Ht) as Hs. pose proof (tctx_step _ _ _ _ Ht) as Ht'.
+  pose proof (next_id_ge c e0) as Hge. pose proof Ht as [Hwf [Hc _]].
+  assert (Hec : enode e < c).
+  { apply (tctx_reg_lt p c (e0 :: es) _ Ht). now apply (entry_reg c (e0 :: es) e ce). }
+  destruct Hin as [Heq | Hin].
+  - inversion Heq; subst e0 ce.
+    assert (Hlt : esrc x < next_id c e).
+    { rewrite Hsrc. unfold read_id, next_id. destruct (estale e); lia. }
+    assert (Hno : ~ In (esrc x) (map enode es)).
+    { intros H. assert (H' : esrc x < c) by (apply (tctx_reg_lt p c (e :: es) _ Ht); cbn; now right).
+      rewrite Hsrc in H'. unfold read_id in H'. lia. }
+    assert (Hstep : forall y, In y (pedges (add_value_store p c e)) -> esrc y = read_id c ->
+                    ekind y <> KDep /\ In (mke (enode e) (edst y) (ekind y)) (pedges p)).
+    { intros y Hy Hys. apply (add_value_store_edges p c e y Hs) in Hy.
+      destruct Hy as [y Hy Hsrc' | | Hst Hso | Hst Hso | Hst | pr Hst Hso Hpr | s k Hin Hk | s Hst Hin];
+        cbn [esrc edst ekind mke] in *; unfold lit_id, read_id, write_id in *; try lia.
+      - destruct (edge_lt p c y Hwf Hc Hy) as [H1 _]. lia.
+      - subst pr. apply (to_graph_wf p Hwf) in Hpr. destruct Hpr as [Hpr _]. apply Hc in Hpr. lia.
+      - auto. }
+    destruct (add_all_out_unregistered x es _ _ Ht' Hx Hlt Hno)
+      as [Hx' | [e' [c' [Hin' [Hst [Hso [Hxeq [k Hk]]]]]]]].
+    + left. now apply Hstep.
+    + right. exists e', c'. split; [now right|]. split; [assumption|]. split; [assumption|].
+      rewrite Hsrc in Hxeq, Hk. split; [assumption|]. destruct (Hstep _ Hk eq_refl) as [H1 H2].
+      exists k. auto.
+  - assert (Hne : enode e0 <> enode e).
+    { intros H. apply (tctx_head_notin _ _ _ _ Ht). rewrite H. now apply (entry_reg _ _ _ _ Hin). }
+    assert (Hback : forall s k, k <> KDep -> In (mke (enode e) s k) (pedges (add_value_store p c e0)) ->
+                    In (mke (enode e) s k) (pedges p)).
+    { intros s k Hk Hy. destruct (avs_out_old p c e0 _ Hs Hy) as [H | [_ [_ [Heq' _]]]];
+        cbn [esrc mke]; try assumption; [congruence|].
+      apply mke_eq in Heq'. destruct Heq' as [_ [_ Heq']]. contradiction. }
+    destruct (IH _ _ e ce Ht' Hin Hx Hsrc) as [[Hk Hy] | [e' [c' [Hin' [Hst [Hso [Hxeq [k [Hk Hy]]]]]]]]].
+    + left. split; [assumption|]. now apply Hback.
+    + right. exists e', c'. split; [now right|]. split; [assumption|]. split; [assumption|].
+      split; [assumption|]. exists k. split; [assumption|]. now apply Hback.
+Qed.
+
+(** entry ids are a function of the registered node *)
+Lemma entry_ids_fun c es e1 c1 e2 c2 :
+  NoDup (map enode es) -> In (e1, c1) (entry_ids c es) -> In (e2, c2) (entry_ids c es) ->
+  enode e1 = enode e2 -> e1 = e2 /\ c1 = c2.
+Proof.
+  revert c. induction es as [|e0 es IH]; intros c Hnd H1 H2 Heq; cbn [entry_ids map] in *; [contradiction|].
+  inversion Hnd as [|? ? Hno Hnd']; subst.
+  destruct H1 as [H1 | H1], H2 as [H2 | H2].
+  - inversion H1; inversion H2; subst. auto.
+  - inversion H1; subst. exfalso. apply Hno. rewrite Heq. now apply (entry_reg _ _ _ _ H2).
+  - inversion H2; subst. exfalso. apply Hno. rewrite <- Heq. now apply (entry_reg _ _ _ _ H1).
+  - now apply (IH (next_id c e0)).
+Qed.
+
+Lemma required_writes_iff c es w :
+  In w (required_writes c es) <-> exists e ce, In (e, ce) (entry_ids c es) /\ estale e = true /\ w = write_id ce.
+Proof.
+  unfold required_writes. rewrite in_map_iff. split.
+  - intros [[e ce] [Hw Hin]]. apply filter_In in Hin. cbn in *. exists e, ce. destruct Hin as [H1 H2]. subst w. auto.
+  - intros [e [ce [Hin [Hst ->]]]]. exists (e, ce). split; [reflexivity|]. apply filter_In. auto.
+Qed.
+
+(** unfolding "is an ancestor of a root" one step at the front *)
+Lemma anc_of_step g R v : anc_of g R v <-> In v R \/ exists w, edge g v w /\ anc_of g R w.
+Proof.
+  split.
+  - intros [H | [s [Hs Hr]]]; [now left|]. right. apply reach_first in Hr.
+    destruct Hr as [He | [k [He Hr]]].
+    + exists s. split; [assumption | now left].
+    + exists k. split; [assumption|]. right. now exists s.
+  - intros [H | [w [He Hw]]]; [now left|]. now apply (anc_of_pred g R v w).
+Qed.
+
+(** * Parts A (continued), C, D: the plan [p] with its registry *)
 Section Refine.
   Variables (reg : registry) (st : nat -> bool) (output : option nat) (p : plan).
   Hypothesis wf : wf_plan p.
